@@ -422,7 +422,7 @@ def _two_sources_joined(S):
     if sum(1 for c in S["comps"].values() if c["cls"] == "Source") < 2:
         return False
     mux = any(c["cls"] == "PMux" and len(S["par"][n]) > 1 for n, c in S["comps"].items())
-    return mux or (hash(json.dumps(S, sort_keys=True, default=str)) % 4 == 0)
+    return mux or (int(hashlib.sha1(json.dumps(S, sort_keys=True, default=str).encode()).hexdigest()[:6], 16) % 4 == 0)
 
 
 def _regulated_input_of_other_source(S):
